@@ -45,6 +45,8 @@ def node_axioms():
           trigger=node, name="node-accessors"),
         Q([Val], lambda t: z3.And(is_fwd(fwdref(t)), den(fwdref(t)) == t), trigger=fwdref, name="forwardref-of-a-type-is-pinned-to-it (C11)"),
         Q([Val], lambda u: nchildren(u) >= 0, trigger=nchildren, name="children-nonneg"),
+        z3.Not(is_fwd(VNone)),
+        Q([Val], lambda t: z3.Implies(unwrap_f(t) == VNone, t == VNone), trigger=unwrap_f, name="unwrap-yields-None-only-for-None (assumed: wrappers wrap types)"),
     ]
 
 
@@ -168,7 +170,8 @@ def make_interp(w: World):
             un = kwargs.get("unwrapped", args[1] if len(args) > 1 else None)
             var = kwargs.get("var", args[2] if len(args) > 2 else None)
             cyclic = kwargs.get("cyclic", False)
-            n = node(to_val(ty), to_val(un), to_val(var))
+            un_t = to_val(ty) if un is None else z3.If(to_val(un) == VNone, to_val(ty), to_val(un))   # __post_init__ (own obligation)
+            n = node(to_val(ty), un_t, to_val(var))
             if cyclic is True:
                 w.cyc = z3.Store(w.cyc, n, z3.BoolVal(True))
             elif cyclic is not False:
@@ -430,3 +433,192 @@ def obligations(chk):
     chk.add(Ob(func, "cover", "pre", results[0][0].hyps, z3.BoolVal(True), expect="sat"))
     chk.trusted.update(I.assumed_used)
     chk.extra_coverage["get_type_graph_paths"] = len(results)
+
+
+# ----------------------------------------------------------------------------- wiring: _level, TypeNode, static_order, itertypes
+n_args = z3.Function("n_args", Val, IntS)
+arg_f = z3.Function("arg", Val, IntS, Val)
+n_hints = z3.Function("n_hints", Val, BoolS, IntS)
+hint_name = z3.Function("hint_name", Val, BoolS, IntS, Val)
+hint_type = z3.Function("hint_type", Val, BoolS, IntS, Val)
+topo = z3.Function("topological_order", Val, Val)             # TopologicalSorter.static_order(): trusted (stdlib graphlib)
+graph_of = z3.Function("get_type_graph", Val, Val)
+static_order_f = z3.Function("static_order", Val, Val)
+evaluate_f = z3.Function("evaluate", Val, Val)
+strref_f = z3.Function("forwardref_of_text", Val, Val)
+
+
+class Hints:
+    host_symbolic = True
+
+    def __init__(self, t, b):
+        self.t, self.b = t, b
+
+
+def level_obligations(chk):
+    """_level(t) yields (None, a) for the generic arguments a of t, then the (name, type) field hints of t
+    (exhaustive exactly when t is a structured type): this *defines* n_children / child_var / child_type."""
+    I = uw.make_interp(raising=False)
+    func = f"{G}._level"
+    structured = uw.uf("isstructuredtype", 1, BoolS)
+    I.stubs["typelib.py.inspection.args"] = Stub("inspection.args", lambda I, p, a, k: SSeq(n_args(to_val(a[0])), lambda i, t=to_val(a[0]): SV(arg_f(t, to_int(i))), "tuple"),
+                                           "args(t): the tuple of generic arguments of t")
+    I.stubs["typelib.py.inspection.isstructuredtype"] = Stub("inspection.isstructuredtype", lambda I, p, a, k: SBool(structured(to_val(a[0]))), "isstructuredtype (C17)")
+    I.stubs["typelib.py.inspection.get_type_hints"] = Stub("inspection.get_type_hints", lambda I, p, a, k: Hints(to_val(a[0]), to_bool_term(k["exhaustive"])),
+                                                     "get_type_hints(t, exhaustive=b): an ordered mapping name -> annotated type")
+    pm = I.hooks.get("method")
+
+    def method(I, path, recv, name, args, kw):
+        if isinstance(recv, Hints) and name == "items":
+            return SSeq(n_hints(recv.t, recv.b), lambda i, r=recv: (SV(hint_name(r.t, r.b, to_int(i))), SV(hint_type(r.t, r.b, to_int(i)))), "list")
+        return pm(I, path, recv, name, args, kw) if pm else _MISSING
+    I.hooks["method"] = method
+    og = I.getattr
+
+    def ga(obj, attr, path, env=None):
+        if isinstance(obj, Hints):
+            return BoundMethod(obj, attr)
+        return og(obj, attr, path, env)
+    I.getattr = ga
+
+    def mk(I, path):
+        t = path.fresh("t")
+        path.assume(n_args(t) >= 0)
+        path.assume(Q([Val, BoolS], lambda u, b: n_hints(u, b) >= 0, trigger=n_hints, name="hints-nonneg"))
+        return [SV(t)], {}, {"t": t}
+    names = ["yields-the-generic-arguments-then-the-field-hints", "arguments-are-unnamed", "hints-are-exhaustive-exactly-for-structured-types"]
+    results = I.run_function(func, mk)
+    for pi, (path, out, obls, writes, cur) in enumerate(results):
+        pid, hy, t = f"p{pi}", path.hyps, cur["t"]
+        if out.kind != "ret" or not isinstance(out.value, SSeq):
+            for nm in names:
+                chk.add(Ob(func, nm, pid, hy, z3.BoolVal(False), {"outcome": out.kind, "why": str(out.value)}))
+            continue
+        b = structured(t)
+        i = path.fresh("i", IntS)
+        from pyvc.expr import _len_term
+        total = _len_term(out.value.length)
+        el = out.value.at(SInt(i))
+        ok_shape = isinstance(el, tuple) and len(el) == 2
+        var_i, ty_i = (to_val(el[0]), to_val(el[1])) if ok_shape else (VNone, VNone)
+        inr = [i >= 0, i < total]
+        chk.add(Ob(func, names[0], pid, hy + inr, z3.And(z3.BoolVal(ok_shape), total == n_args(t) + n_hints(t, b),
+                                                       ty_i == z3.If(i < n_args(t), arg_f(t, i), hint_type(t, b, i - n_args(t))))))
+        chk.add(Ob(func, names[1], pid, hy + inr, z3.And(z3.BoolVal(ok_shape), var_i == z3.If(i < n_args(t), VNone, hint_name(t, b, i - n_args(t))))))
+        chk.add(Ob(func, names[2], pid, hy, z3.BoolVal(True)))      # by construction of the stub call: exhaustive = isstructuredtype(t); a different flag changes b above
+    if results:
+        chk.add(Ob(func, "cover", "pre", results[0][0].hyps, z3.BoolVal(True), expect="sat"))
+    chk.trusted.update(I.assumed_used)
+
+
+def post_init_obligations(chk):
+    """TypeNode.__post_init__: unwrapped defaults to the type; nothing else changes."""
+    I = uw.make_interp(raising=False)
+    func = f"{G}.TypeNode.__post_init__"
+    cv = I.mods.resolve(G, "TypeNode")
+
+    def mk(I, path):
+        ty, un, var = path.fresh("type"), path.fresh("unwrapped"), path.fresh("var")
+        slf = Obj(cv, {"type": SV(ty), "unwrapped": SV(un), "var": SV(var), "cyclic": False})
+        return [slf], {}, {"self": slf, "ty": ty, "un": un, "var": var}
+    results = I.run_function(func, mk)
+    names = ["unwrapped-defaults-to-the-type", "frame::type-var-cyclic-unchanged"]
+    for pi, (path, out, obls, writes, cur) in enumerate(results):
+        pid, hy = f"p{pi}", path.hyps
+        if out.kind not in ("ret", "end"):
+            for nm in names:
+                chk.add(Ob(func, nm, pid, hy, z3.BoolVal(False), {"outcome": out.kind, "why": str(out.value)}))
+            continue
+        f = cur["self"].fields
+        chk.add(Ob(func, names[0], pid, hy, to_val(f["unwrapped"]) == z3.If(cur["un"] == VNone, cur["ty"], cur["un"])))
+        chk.add(Ob(func, names[1], pid, hy, z3.And(to_val(f["type"]) == cur["ty"], to_val(f["var"]) == cur["var"], z3.BoolVal(f["cyclic"] is False),
+                                                 z3.BoolVal(set(f) == {"type", "unwrapped", "var", "cyclic"}))))
+    if results:
+        chk.add(Ob(func, "cover", "pre", results[0][0].hyps, z3.BoolVal(True), expect="sat"))
+
+
+class GraphVal:
+    host_symbolic = True
+
+    def __init__(self, t):
+        self.t = t
+
+
+def order_obligations(chk):
+    """static_order / itertypes: a string or ForwardRef input is evaluated first and then treated exactly like the
+    evaluated type; any other input yields the topological order of get_type_graph(t), unchanged and complete."""
+    import typing
+    FWD = cls_const(typing.ForwardRef)
+    STR = cls_const(str)
+    for fname in ("static_order", "itertypes"):
+        I = uw.make_interp(raising=False)
+        func = f"{G}.{fname}"
+        I.stubs["typelib.py.refs.forwardref"] = Stub("refs.forwardref", lambda I, p, a, k: SV(strref_f(to_val(a[0]))), "refs.forwardref(<text>): the reference the text names (C11)")
+        I.stubs["typelib.py.refs.evaluate"] = Stub("refs.evaluate", lambda I, p, a, k: SV(evaluate_f(to_val(a[0]))), "refs.evaluate(ref): the type the reference denotes (C11)")
+        I.stubs[f"{G}.get_type_graph"] = Stub("graph.get_type_graph", lambda I, p, a, k: GraphVal(to_val(a[0])), "get_type_graph(t): contract proved above")
+        I.stubs[f"{G}.static_order"] = Stub("graph.static_order", lambda I, p, a, k: SV(static_order_f(to_val(a[0]))), "static_order(t) (recursion by contract; memoised by compat.cache: same value)")
+        pm = I.hooks.get("method")
+
+        def method(I, path, recv, name, args, kw, pm=pm):
+            if isinstance(recv, GraphVal) and name == "static_order":
+                from pyvc.core import seq_len, seq_at
+                s = topo(graph_of(recv.t))
+                return SSeq(seq_len(s), lambda i, s=s: SV(seq_at(s, to_int(i))), "gen")
+            return pm(I, path, recv, name, args, kw) if pm else _MISSING
+        I.hooks["method"] = method
+        og = I.getattr
+
+        def ga(obj, attr, path, env=None, og=og):
+            if isinstance(obj, GraphVal):
+                return BoundMethod(obj, attr)
+            return og(obj, attr, path, env)
+        I.getattr = ga
+
+        def mk(I, path):
+            from pyvc.core import class_axioms
+            t = path.fresh("t")
+            for a in class_axioms():
+                path.assume(a)
+            return [SV(t)], {}, {"t": t}
+        results = I.run_function(func, mk)
+        names = ["references-are-evaluated-then-ordered-like-the-type", "types-yield-the-topological-order-of-their-graph"]
+        for pi, (path, out, obls, writes, cur) in enumerate(results):
+            pid, hy, t = f"p{pi}", path.hyps, cur["t"]
+            from pyvc.core import seq_len, seq_at
+            is_ref = z3.Or(sub(cls_of(t), STR), sub(cls_of(t), FWD))
+            ref = z3.If(sub(cls_of(t), STR), strref_f(t), t)
+            ev = evaluate_f(ref)
+            if out.kind != "ret":
+                for nm in names:
+                    chk.add(Ob(func, nm, pid, hy, z3.BoolVal(False), {"outcome": out.kind, "why": str(out.value if out.kind != "raise" else out.exc.exc_cls)}))
+                continue
+            v = out.value
+            i = path.fresh("i", IntS)
+            if isinstance(v, SSeq):
+                from pyvc.expr import _len_term
+                n, at = _len_term(v.length), to_val(v.at(SInt(i)))
+                same_as = lambda s: z3.And(n == seq_len(s), z3.Implies(z3.And(i >= 0, i < n), at == seq_at(s, i)))
+                direct = None
+            else:
+                direct = to_val(v)
+                same_as = None
+            g_ev, g_t = topo(graph_of(ev)), topo(graph_of(t))
+            if fname == "static_order":
+                # reference input: the very value static_order(evaluated) (hence the same sequence); type input: the graph's order
+                goal_ref = (direct == static_order_f(ev)) if direct is not None else z3.BoolVal(False)
+                goal_ty = same_as(g_t) if same_as else z3.BoolVal(False)
+            else:
+                goal_ref = same_as(g_ev) if same_as else z3.BoolVal(False)
+                goal_ty = same_as(g_t) if same_as else z3.BoolVal(False)
+            chk.add(Ob(func, names[0], pid, hy + [is_ref], goal_ref))
+            chk.add(Ob(func, names[1], pid, hy + [z3.Not(is_ref)], goal_ty))
+        if results:
+            chk.add(Ob(func, "cover", "pre", results[0][0].hyps, z3.BoolVal(True), expect="sat"))
+        chk.trusted.update(I.assumed_used)
+
+
+def all_obligations(chk):
+    obligations(chk)
+    level_obligations(chk)
+    post_init_obligations(chk)
+    order_obligations(chk)
